@@ -26,7 +26,16 @@ PROP = dict(
          "0..39, candidate calls with indices -1 / huge, user-phrase add / remove / lookup / enumerate / get with short caller "
          "buffers, enumerations left pending across dictionary updates, keyboard-type enumerations read up to 600 times past "
          "their end, reset / clean calls; every getter after every call; tests/data and the built-in dictionary), each call under a "
-         "1 s CPU-time + 10 s wall watchdog",
+         "1 s CPU-time + 10 s wall watchdog. Classification: every failure (panic, abort, hang, accessor failure) is `new` - no "
+         "known class remains. States with a buffered syllable WITHOUT A WORD (the former class of F02 / F03, repaired) are "
+         "exercised on purpose and counted: editor harness c01_steps_from_noword_state (+ .engine0/1/2, .choice_forward / "
+         ".choice_rearward, .list_open, .op_*), c01_sessions_reaching_noword_state, c01_sessions_with_noword_scenarios, "
+         "c01_noword_state_entered_by.*; C-API campaign: a directed corpus replayed on every run (stat directed_histories; the former F02 / "
+         "F03 / simple-engine-hang witnesses as they were and continued with Down / cand_open / cand_list_first/last/next/prev / "
+         "choose / Tab / Enter, the list opened under each engine, j / k onto the syllable from a neighbour, auto-commit with "
+         "threshold 0..2: former_noword_class_witnesses = former_noword_class_witnesses_clean) and calls_from_noword_state, "
+         "histories_reaching_noword_state, noword_incl_directed.* measured by replaying a sample of the generated histories with "
+         "the state predicate evaluated before every call (calls_from_noword_state_estimated_campaign)",
     trusted_base=[
         "hook H1 (Editor::verif_snapshot, TrieBuf::verif_snapshot) is read-only; the layout and conversion answers of each step "
         "are recorded through wrapper objects installed through the public constructors",
@@ -36,20 +45,24 @@ PROP = dict(
         "C-API campaign: worker processes of the harness binary itself; death by SIGABRT/SIGILL/SIGTRAP = abort, SIGVTALRM / "
         "SIGALRM = hang (re-run once alone to confirm); the state right before the failing call is re-created by replaying the "
         "history prefix in an inspection process and read through getters that do not convert (phoneSeq, config_get_int, "
-        "cand_CheckDone, userphrase enumeration)",
-        "finding classes are state predicates evaluated by the harness on the real state (KNOWN_FINDINGS.txt); the panic site "
-        "(file, message) is printed for information and never used to classify",
+        "cand_CheckDone, userphrase enumeration) - for the reader's information only",
+        "no finding class is known for C01 (KNOWN_FINDINGS.txt holds only `fixed:` lines): every failure is reported as new; the "
+        "panic site (file, message) and the word-less-syllable predicate of the former class are printed for information and "
+        "never used to classify; the same predicate, evaluated by the harnesses on the real state, only feeds the statistics "
+        "that show such states are reached",
     ],
     assumptions=[
         "crash = Rust panic (unwinding in the pure API, process abort behind extern \"C\"), overflow and debug assertions on "
         "(debug profile, as the harness is built); hang = a loop of the modelled code that does not terminate. Allocation "
         "failure, stack exhaustion and wall-clock time of the real process are not modelled",
-        "known finding class no-word-for-buffered-syllable (F02, F03): a syllable in the pre-edit buffer without a "
-        "one-syllable word under the lookup strategy in force; the theorems exclude exactly these states and the oracles "
-        "classify by the same predicate on the real state, so a crash from any other state is reported as new",
+        "no known class remains: the former class no-word-for-buffered-syllable (F02, F03: a syllable in the pre-edit buffer "
+        "without a one-syllable word under the lookup strategy in force aborted the next conversion / PhraseSelector::init, or "
+        "hung PhraseSelector::next) is repaired in the repository (43e8036 fallback to the syllable's spelling, 0f255ea selector "
+        "init / next, ce48759 a list without candidates is not opened); the theorems hold without excluding these states and "
+        "the oracles report every failure from any state as new",
         "the in-memory dictionaries of the editor harness never match a partial syllable by prefix (TrieBuf B-tree look-ups "
-        "are exact), so the F02 way into the class (fuzzy engine, partial syllable, engine switch) is exercised by the C-API "
-        "campaign on the real Trie dictionaries only; the F03 way (unlearn the only word) is exercised by both",
+        "are exact), so the F02 way into a word-less state (fuzzy engine, partial syllable, engine switch) is exercised by the "
+        "C-API campaign on the real Trie dictionaries only; the F03 way (unlearn the only word) is exercised by both",
         "chewing_new (default search paths, would touch $HOME) and chewing_set_logger with a callback (variadic) are not called",
         "EnvOK (explicit hypotheses of every theorem): well-formed dictionary values (one character per syllable, closed under "
         "add / update / flush / remove), an exact match is also a prefix match, the engines behave as C03 proves for the engine "
@@ -64,43 +77,54 @@ MANIFEST = dict(
          "slice / assert / checked-arithmetic site an explicit `Outcome.panic`, every loop fuel-bounded), for EVERY environment "
          "(dictionary, layout, engines, estimator) satisfying the explicit hypotheses EnvOK (phrases have one character per "
          "syllable; adding / updating / flushing removes no word; the engines return a tiling with one character per symbol on a "
-         "valid composition whose syllables all have a word = C03's theorems; the estimator does not overflow). EditorInv is the "
-         "reachable-state invariant: C04 composition invariant + one character per selected symbol + selections over syllables, "
-         "cursor <= len, every buffered syllable has a word under every active lookup strategy (engine's, editor's, open "
-         "selector's), prefix lookup only with the prefix engine, page size > 0, open phrase selector = non-empty run of syllables "
-         "inside the buffer over the editor's own composition, replacing symbol list sits on a non-syllable. C01_partial (one "
-         "operation) / C01_partial_run (every history, induction): from EditorInv, an operation outside the known class returns "
-         "a value - no panic (no_panic), no exhausted fuel (no_hang: PhraseSelector::init / next, break-point searches, "
-         "auto-learn, auto-commit loops terminate within a bound linear in the buffer length) - and EditorInv holds again; "
-         "initial_inv: a fresh editor satisfies it; compValid_of_cinv: EditorInv implies the precondition of C03's engine "
-         "theorems. Known (state-based, F02 / F03): unlearn_phrase / set_editor_options / set_conversion_engine after which "
-         "some buffered syllable has no word under an active strategy; C01_full (no exclusion) is refuted by the F02 and F03 "
-         "histories (C01_full_refuted, f03_history_panics, f02_is_known); C01_plain_histories: histories of key events (any code / "
-         "modifiers), select(n), start/cancel selecting, commit, clear, ack, layout switches and learn_phrase need no exclusion "
-         "at all (the four jump_to_*_selection_point calls included). Covered by the theorems: every key in all four states (Selecting "
-         "with phrase lists, special-symbol lists and symbol tables: paging, Down/Space = PhraseSelector::next, j/k = retarget, "
-         "digits = Selecting::select - a chosen phrase is a valid selection) and EVERY other entry point in every state, incl. "
-         "jump_to_{first,last,next,prev}_selection_point while a phrase candidate list is open (C01_target_holds, jump_never_panics; "
-         "Proofs/C01Jump.lean: the open selector's invariant carries the Anchor of its range at the position the list was opened "
-         "at, so re-init and next/prev_selection_point stay on the run of syllables; the former coverage predicate Covered is "
-         "deleted) and the option / layout / dictionary calls with their final revalidate_selecting (C07's F32 repair). "
-         "selector_loops_terminate / init_terminates: fuel sufficiency of every selector loop with its progress argument (each "
-         "round shortens the range / moves one symbol towards an end of the buffer; next wraps at most once). The first proof "
-         "attempt in the jump corner uncovered a genuine defect, finding F41, confirmed as an abort on the real C API and repaired "
-         "(f41_history_repaired: with the simple engine chewing_cand_list_first made the single-word list swallow the following "
-         "non-syllable symbol; choosing a candidate recorded an invalid selection and the next ChewingEngine conversion aborted). "
+         "EVERY valid composition (with or without a word per syllable) at least one alternative, a chain over 0..len with at "
+         "least one character per symbol, and exactly one where every syllable has a word = C03's nonempty_result / alt_chain / "
+         "text_at_least_one_per_symbol / one_char_per_symbol; the estimator does not overflow). EditorInv env G w is the "
+         "reachable-state invariant in two strengths. w = False (SafeInv): C04 composition invariant + one character per "
+         "selected symbol + selections over syllables, cursor <= len, page size > 0, well-formed symbol tables, open phrase "
+         "selector = non-empty run of syllables inside the buffer over the editor's own composition anchored where the list "
+         "was opened, replacing symbol list sits on a non-syllable. w = True adds: every buffered syllable has a word under "
+         "every active lookup strategy and prefix lookup only with the prefix engine - no longer needed for safety. "
+         "theorem C01 : C01_full - the property as worded, NO exclusion: from every state satisfying SafeInv (initial_safe: a "
+         "fresh editor does) every history of valid public operations returns; C01_step: from every such state EVERY operation "
+         "returns a value - no panic (no_panic), no exhausted fuel (no_hang: PhraseSelector::init / next, break-point searches, "
+         "auto-learn, auto-commit loops terminate within a bound linear in the buffer length) - and SafeInv holds again; "
+         "C01_run (induction over histories); C01_reachable (every operation from every reachable state). Until the fix: commits "
+         "43e8036 (ChewingEngine shows a syllable without a word as its spelling), 0f255ea (PhraseSelector::init stays on the "
+         "one-syllable range, next is a bounded loop) and ce48759 (a phrase list without candidates is not opened; j / k onto one "
+         "close the list) C01_full was refuted by findings F02 / F03; the former witnesses are now theorems f02_history_repaired, "
+         "f03_history_repaired, f03_hang_repaired, selector_on_wordless (the histories return; the syllable is committed as its "
+         "spelling; Down on it is ignored; next returns to its range). word_clause_kept / C01_partial_run: the strength-True "
+         "invariant is kept outside the class Known (state-based: unlearn_phrase / set_editor_options / set_conversion_engine "
+         "after which some buffered syllable has no word under an active strategy - word-losing, no longer crashing; "
+         "f02_switch_loses_word: not empty); C01_plain_histories: keys, select(n), start/cancel selecting, jumps, commit, clear, "
+         "ack, layout switches and learn_phrase are never in it. compValid_of_cinv: EditorInv implies the precondition of C03's "
+         "engine theorems; engines_satisfy_convert_ok / _len: C03's engine model satisfies both engine clauses (buffers <= 128 "
+         "symbols, no syllable code 0). Covered by the theorems: every key in all four states (Selecting "
+         "with phrase lists, special-symbol lists and symbol tables: paging, Down/Space = PhraseSelector::next, j/k = retarget + "
+         "closeIfEmpty, digits = Selecting::select - a chosen phrase is a valid selection) and EVERY other entry point in every "
+         "state, incl. open_phrase (start_selecting / Down / Space), jump_to_{first,last,next,prev}_selection_point while a "
+         "phrase candidate list is open (jump_never_panics; Proofs/C01Jump.lean: the open selector's invariant carries the Anchor "
+         "of its range) and the option / layout / dictionary calls with their final revalidate_selecting (C07's F32 repair). "
+         "selector_loops_terminate / init_terminates: fuel sufficiency of every selector loop with its progress argument, over "
+         "ANY dictionary. The first proof attempt in the jump corner uncovered finding F41, confirmed as an abort on the real C "
+         "API and repaired (f41_history_repaired). "
          "Outside the theorems: the C glue capi/src/io.rs. The theorems rest on the tie: per-operation correspondence of model and real Editor from its own "
          "pre-state (panic outcomes included, 0 differences), the editor-harness oracle (any panic / hang of an operation or "
          "accessor) and a C-API crash/hang campaign in forked workers with a per-call watchdog (all 256 key codes, options, 17 "
          "keyboard types, 3 engines mid-composition, candidate and user-phrase calls with hostile arguments, every getter after "
-         "every call); failures are classified by the state predicate only (known class no-word-for-buffered-syllable, else "
-         "new with the call history as replay). Defects repaired by fix: commits: F01 full-width unwrap, F04 candidate offset "
+         "every call); NO known class remains: every panic / abort / hang is reported as new with the call history as "
+         "replay (the former class predicate is kept as a statistic: c01_steps_from_noword_state, calls_from_noword_state; the "
+         "former witnesses are regression histories of the campaign). Defects repaired by fix: commits: F02+F03 word-less syllable "
+         "(43e8036, 0f255ea, ce48759), F01 full-width unwrap, F04 candidate offset "
          "overflow, F06 userphrase_get short buffer, F40 (new, found by the campaign) Editor::select auto-commits under an open list, F41 (new, found by the proof attempt) init_single_word origin, "
          "F42 (found by the C15 builder) keyboard-type counter overflow after 256 reads, F22 (C15) pending user-phrase enumeration "
          "read after a dictionary update.",
     note="Trusted: Lean kernel (axioms propext, Classical.choice, Quot.sound), read-only snapshot hooks, harness + compiled model "
-         "driver, the process-level watchdog. EnvOK.convert_ok is C03's nonempty_result + alt_chain + one_char_per_symbol + "
-         "fuel_suffices (proved there for the engine model, under ScoreBound = at most 128 symbols and frequencies <= 2^23; the "
+         "driver, the process-level watchdog. EnvOK.convert_ok / convert_len are C03's nonempty_result + alt_chain + "
+         "text_at_least_one_per_symbol + one_char_per_symbol + fuel_suffices (proved there for the engine model, under ScoreBound "
+         "= at most 128 symbols and frequencies <= 2^23, and SpellNonempty = no buffered syllable code 0, whose spelling is "
+         "empty and which no keyboard layout produces; the "
          "link buffer length <= 128 is C05's bound and is not re-proved here); the dictionary hypotheses of EnvOK are C09's "
          "domain and are assumptions here. Not modelled: allocation failure, stack exhaustion, wall-clock time. chewing_new and "
          "logger callbacks are not exercised.",
